@@ -304,6 +304,18 @@ def resolve (db : DB) (rels : List String) (c : ColRef) : Except Err (QName × F
         | none => .error .unmodelled
         | some f => .ok ((rel, c.col), f)
 
+/-- the inner loop of `_project_all` over the fields of relation `name`; `ka` is `keys_added` -/
+def projFields (name : String) : List Field → List String → List QName × List String
+  | [], ka => ([], ka)
+  | f :: fs, ka =>
+    if !f.isKey then
+      let p := projFields name fs ka
+      ((name, f.name) :: p.1, p.2)
+    else if ka.contains f.name then projFields name fs ka
+    else
+      let p := projFields name fs (ka ++ [f.name])
+      ((name, f.name) :: p.1, p.2)
+
 /-- `_project_all` -/
 def projectAllAux (db : DB) : List String → List String → Except Err (List QName)
   | [], _ => .ok []
@@ -311,12 +323,7 @@ def projectAllAux (db : DB) : List String → List String → Except Err (List Q
     match db.rel? name with
     | none => .error .keyError
     | some r =>
-      let step := r.fields.foldl
-        (fun (acc : List QName × List String) f =>
-          if !f.isKey then (acc.1 ++ [(name, f.name)], acc.2)
-          else if acc.2.contains f.name then acc
-          else (acc.1 ++ [(name, f.name)], acc.2 ++ [f.name]))
-        ([], keysAdded)
+      let step := projFields name r.fields keysAdded
       match projectAllAux db rest step.2 with
       | .error e => .error e
       | .ok more => .ok (step.1 ++ more)
@@ -522,6 +529,11 @@ def hashJoin {α β γ κ} [DecidableEq κ] (L : List α) (R : List β) (kl : α
 
 def keyOf (idxs : List Nat) (row : List Cell) : List Val := (pick idxs row).map (·.val)
 
+/-- `on` of `_join`: the key columns of the new relation whose (unqualified) name is already a
+column name of the selection -/
+def sharedKeys (sel : Sel) (fields : List Field) : List String :=
+  (fields.filter (fun f => f.isKey && (dictGet sel.index (.u f.name)).isSome)).map (·.name)
+
 def joinStep (db : DB) (sel : Sel) (j : String × List String) : Except Err Sel :=
   if sel.joined.contains j.1 then .error .tsqlError else
   match db.rel? j.1 with
@@ -534,7 +546,7 @@ def joinStep (db : DB) (sel : Sel) (j : String × List String) : Except Err Sel 
       if sel.joined.isEmpty then
         .ok (mergeFields { sel with data := rel.rows.map (pick indices) } j.1 [] fields)
       else
-        let on := (fields.filter (fun f => f.isKey && (dictGet sel.index (.u f.name)).isSome)).map (·.name)
+        let on := sharedKeys sel fields
         let fields' := fields.filter (fun f => !on.contains f.name)
         if on.isEmpty then .error .tsqlError else
         let rK := on.filterMap rel.fieldIdx?
